@@ -1114,7 +1114,7 @@ class Exec:
         X = self.seq(l, st)
         k = r.z
         ck = VInt(k).conc()
-        if ck is not None and ck <= 8:
+        if ck is not None and ck <= 64:
             z = z3.Empty(BYTES) if ck <= 0 else (X if ck == 1 else z3.Concat(*([X] * ck)))
             return [(st, VBytes(z))]
         R = fresh('rep', BYTES)
@@ -1354,6 +1354,10 @@ class Exec:
                     if isinstance(acc, Raise):
                         nxt.append((s1, acc))
                         continue
+                    if isinstance(a, ast.Starred):
+                        for s2, v in self.ev(a.value, env, s1, ctx):
+                            nxt.append((s2, v if isinstance(v, Raise) else acc + self.iter_items(v, s2)))
+                        continue
                     for s2, v in self.ev(a, env, s1, ctx):
                         nxt.append((s2, v if isinstance(v, Raise) else acc + [v]))
                 argsets = nxt
@@ -1396,6 +1400,11 @@ class Exec:
             return self.call_class(f, args, kws, st, ctx, n)
         if isinstance(f, VBuiltin):
             return self.call_builtin(f, args, kws, st, ctx, n, env)
+        if isinstance(f, VExt):
+            hk = self.hooks.get(('ext:' + f.name, '__call__'))
+            if hk is not None:
+                return hk(self, st, f, args)
+            return [(st, VExt(f.name + '()', list(f.args) + list(args), kws))]
         raise ToolLimit('call of %s' % type(f).__name__)
 
     def call_class(self, f, args, kws, st, ctx, n):
@@ -1717,6 +1726,8 @@ class Exec:
                     t = B64D(xs)
                     st.ghost.setdefault('b64decoded', []).append((xs, t))
                 return [(st, VBytes(t))]
+            if name == 'constant_time.bytes_eq':
+                return [(st, VBool(self.seq(A[0], st) == self.seq(A[1], st)))]
             if name in ('re.subn', 're.sub'):
                 pat, rep = self.conc_bytes(A[0], st), self.conc_bytes(A[1], st)
                 if pat is None or rep is None:
@@ -1832,6 +1843,8 @@ class Exec:
         # bound methods
         if name == 'hook':
             hk, o = b
+            if getattr(hk, 'wants_kws', False):
+                return hk(self, st, o, A, kws)
             return hk(self, st, o, A)
         if name == 'extmethod':
             vext, attr = b
@@ -1888,6 +1901,12 @@ class Exec:
         if isinstance(b, (VBytes, VBuf)):
             if name == 'append':
                 st.heap[b.cell] = z3.Concat(st.heap[b.cell], z3.Unit(self.as_int(A[0])))
+                return [(st, VNone())]
+            if name == 'insert' and isinstance(b, VBuf) and A[0].conc() == 0:
+                st.heap[b.cell] = z3.Concat(z3.Unit(self.as_int(A[1])), st.heap[b.cell])
+                return [(st, VNone())]
+            if name == 'extend' and isinstance(b, VBuf):
+                st.heap[b.cell] = z3.Concat(st.heap[b.cell], self.seq(A[0], st))
                 return [(st, VNone())]
             if name == 'encode':
                 return [(st, b)]
